@@ -150,6 +150,9 @@ def rename(rng, desc, special=0.12):
     det = desc.get("_build", {}).get("detour")
     if det:                                       # the generator's "added late" leaf and its decoy host
         det["x"], det["decoy_parent"] = mp.get(det["x"], det["x"]), mp.get(det["decoy_parent"], det["decoy_parent"])
+    br = desc.get("_build", {}).get("bridge")
+    if br:                                        # the link that is first built through a temporary stage
+        br["child"] = mp.get(br["child"], br["child"])
     while True:
         desc["name"] = rname(rng, set(), 1, 12)
         if not desc["name"].endswith("\\"):
@@ -248,6 +251,9 @@ def bad_names(rng, desc, cls):
     det = desc.get("_build", {}).get("detour")
     if det:
         det["x"], det["decoy_parent"] = new.get(det["x"], det["x"]), new.get(det["decoy_parent"], det["decoy_parent"])
+    br = desc.get("_build", {}).get("bridge")
+    if br:
+        br["child"] = new.get(br["child"], br["child"])
     return desc
 
 
